@@ -14,6 +14,15 @@ Real code driven here (all from /repo's working tree, nothing edited):
             real parse_sync_managers, 1-4 tasks doing SDO reads/writes with retries over a frame-level bus of simulated
             mailbox terminals; attempts fail BEFORE anything is written (status read unanswered, stale mail whose fetch
             fails) and are retried; judged are the mailbox headers each simulated terminal received
+  hist      histories: real EtherCat + real Terminal.sdo_read / sdo_write (expedited and segmented) / coe_request
+            (with fragments) with either lock class; every transfer ends in one of all ways - normally, abort answer
+            at any exchange (EtherCatError inside the block), a datagram not processed at any bus access, Task.cancel()
+            while suspended in any bus access, a terminal that answers late or never - and is followed by the next
+            user: same task, other task, or (lock file) another LockFile + ParallelMailboxLock object (= another
+            process, alternating phases).  Judged: every mailbox header on the bus and who put it there, and what
+            the lock keeps afterwards (MailboxLock.counter / the byte in the real lock file)
+In inproc and cross a block may also be LEFT BY AN EXCEPTION while its request is out ([n, cut, mode]: an error
+raised in the block, or Task.cancel() on the block's task), at every position, followed by further users.
 The three defects this check found (creation window, tasks of one process, upper end of the address range) are
 repaired in /repo; their former counterexample schedules are now ordinary cases that must pass.
 Each observable trace is compared exactly with the Lean model (Ebv.Mbx via Drivers/C15.lean); the property text
@@ -43,15 +52,21 @@ THEOREMS = [
     "Ebv.C15.crossproc_serialised", "Ebv.C15.creation_window_safe", "Ebv.C15.holder_can_proceed",
     "Ebv.C15.addr_accepted",
     "Ebv.C15.same_process_witness_now", "Ebv.C15.creation_window_witness_now",
+    "Ebv.C15.failed_total", "Ebv.C15.counter_tracks_bus", "Ebv.C15.file_tracks_bus",
+    "Ebv.C15.failed_exchange_witness", "Ebv.C15.failed_crossproc_witness",
 ]
 TRUSTED = ["hand-written model Ebv.Mbx of MailboxLock / LockFile / ParallelMailboxLock, tied by exact trace correspondence",
            "asyncio.Lock semantics (FIFO waiters, release wakes the first) and POSIX semantics of O_EXCL, ftruncate, lockf "
            "(per-process record locks), pread, pwrite as modelled; the emulation in harness/vh/props/c15.py is cross-checked "
            "against the kernel on the forked-process cases",
            "mbxMod/mbxStart/addrLo/addrHi regenerated from /repo into Ebv.Generated.Consts"]
-ASSUMPTIONS = ["no task cancellation while waiting for a lock; a process is single threaded",
-               "an attempt that fails once its message has been (partly) written may or may not have reached the terminal: only "
-               "failures before the first write of a message are required to leave the counter alone",
+ASSUMPTIONS = ["no task cancellation while still WAITING for a lock (cancellation and errors inside the block are covered at every "
+               "await); a process is single threaded",
+               "a message is its mailbox header put on the bus (FPWR on the out mailbox): from then on its counter is used up, "
+               "whether or not the terminal processed the datagram or the rest of the message followed (the master cannot know); "
+               "a failure before that consumes nothing",
+               "in hist the simulated terminal drops the unread answer to an abandoned request when the next request arrives "
+               "(what a later user reads after somebody else's cancelled exchange is not part of this property)",
                "one lock object per (process, terminal): tasks of a process share it, as Terminal.mbx_lock does",
                "the lock file is not removed while in use (removal belongs to C23)",
                "random.randint(a, b) may return b",
@@ -64,13 +79,31 @@ RULE = ("cycle: c0 in 0..7 x n<=40; inproc: 1-4 tasks x 1-2 critical sections x 
         "processes on a present file); fork: the former counterexample schedules and controls on really forked processes; "
         "addr: both ends of terminal_addr_range and random members; mbxbus: 1-3 terminals (symmetric and asymmetric mailbox sizes) x "
         "1-4 tasks x 1-4 SDO transfers, 0-3 unanswered status reads, 0-2 stale mails (fetched, or their fetch unanswered) per "
-        "terminal, every transfer retried until it succeeds; non-trivial = at least two users sent a message (mbxbus: a failed "
-        "attempt followed by a message that left)")
+        "terminal, every transfer retried until it succeeds; inproc/cross: in 60% of the cases blocks are left by an error or "
+        "a Task.cancel() while a request is out (40% of their blocks, any position, both modes) + two forked-process cases; hist: "
+        "mailbox or parallel lock, 1-3 lock objects on one lock file in 1-5 alternating phases, 1-3 tasks x 1-3 transfers "
+        "(sdo_read expedited/1-3 segments, sdo_write expedited/1-3 segments, coe_request 1-2 fragments, answers 0-2 polls late), "
+        "ending ok / abort at any exchange / datagram lost at any access / cancelled in any access / never answered, terminal "
+        "address at both ends of the range; non-trivial = at least two users sent a message (mbxbus: a failed "
+        "attempt followed by a message that left; hist: a transfer that failed or was cancelled after sending, followed by a message)")
 
 
 def succ(c):
     """the cycle of the property text: 0 -> 1, 1 -> 2, ..., 6 -> 7, 7 -> 1"""
     return 1 if c in (0, 7) else c + 1
+
+
+def sec(x):
+    """a block `async with lock:`: n complete exchanges, left normally (an int), or [n, cut, mode] - with cut != 0 one
+    more request is sent and the block is then left by an exception before the response is read: mode 0 an error is
+    raised inside the block, mode 1 the task is cancelled (Task.cancel) while it waits for the response"""
+    if isinstance(x, int):
+        return x, 0, 0
+    return x[0], x[1], (x[2] if len(x) > 2 else 0)
+
+
+class Boom(Exception):
+    """what a failed exchange raises inside the block"""
 
 
 
@@ -113,7 +146,7 @@ def run_inproc(case):
     async def main():
         loop = asyncio.get_running_loop()
         lock = lk.MailboxLock()
-        gates = {}
+        gates, cancels, planned = {}, {}, set()
         holder = [None]
 
         def gate(t):
@@ -121,21 +154,47 @@ def run_inproc(case):
             gates[t] = f
             return f
 
+        async def block(t, spec):
+            """one `async with lock:` (a task of its own, so that it can be cancelled like a timed-out transfer)"""
+            n, cut, mode = sec(spec)
+            me = asyncio.current_task()
+            try:
+                await gate(t)
+                async with lock:
+                    holder[0] = t
+                    out.append(f"a{t}")
+                    for _ in range(n):
+                        await gate(t)
+                        out.append(f"s{t}={lock.next_counter()}")
+                        await gate(t)
+                        out.append(f"r{t}")
+                    if cut:
+                        await gate(t)
+                        out.append(f"s{t}={lock.next_counter()}")
+                        if mode == 0:
+                            await gate(t)
+                            out.append(f"x{t}")
+                            raise Boom()
+                        cancels[t] = me
+                        try:
+                            await gate(t)
+                        except asyncio.CancelledError:
+                            if me in planned:
+                                out.append(f"x{t}")
+                            raise
+                    await gate(t)
+            except Boom:
+                pass
+            except asyncio.CancelledError:
+                if me not in planned:
+                    raise
+            out.append(f"l{t}")
+            holder[0] = None
+
         async def user(t, sections):
             try:
-                for n in sections:
-                    await gate(t)
-                    async with lock:
-                        holder[0] = t
-                        out.append(f"a{t}")
-                        for _ in range(n):
-                            await gate(t)
-                            out.append(f"s{t}={lock.next_counter()}")
-                            await gate(t)
-                            out.append(f"r{t}")
-                        await gate(t)
-                    out.append(f"l{t}")
-                    holder[0] = None
+                for spec in sections:
+                    await loop.create_task(block(t, spec))
             except asyncio.CancelledError:
                 raise
             except Exception as ex:
@@ -151,10 +210,16 @@ def run_inproc(case):
             for t in batch:
                 f = gates.pop(t, None)
                 if f is not None:
-                    f.set_result(None)
+                    c = cancels.pop(t, None)
+                    if c is not None:
+                        planned.add(c)
+                        c.cancel()
+                    else:
+                        f.set_result(None)
             await settle()
             nw = len(lock._waiters) if lock._waiters else 0
             out.append(("/-" if holder[0] is None else f"/{holder[0]}") + ("L" if lock.locked() else "U") + str(nw))
+        out.append(f"k{lock.counter}")          # what the lock keeps for the next user
         for t in ts:
             t.cancel()
         await asyncio.gather(*ts, return_exceptions=True)
@@ -180,6 +245,11 @@ def oracle_inproc(ctx, case, out):
         if k == "e":
             bad = bad or f"task failed: {tok}"
             continue
+        if k == "k":        # after the schedule: the counter the lock keeps continues the count of the bus
+            if not ((last is None and tok[1:] in "01234567" and len(tok) == 2) or
+                    (last is not None and tok[1:] == str(succ(last)))):
+                bad = bad or f"the lock keeps {tok[1:]} for the next user after counter {last} on the bus"
+            continue
         t = int(tok[1:].split("=")[0])
         if k == "a":
             if inside is not None:
@@ -199,6 +269,10 @@ def oracle_inproc(ctx, case, out):
         elif k == "r":
             if pend != t:
                 bad = bad or f"response read by task {t} while request of {pend} is out"
+            pend = None
+        elif k == "x":      # the block is left by an exception: its request stays unanswered, the exchange is over
+            if pend != t:
+                bad = bad or f"task {t} abandons a request while request of {pend} is out"
             pend = None
     ctx.require(bad is None, "in-process exchanges not serialised/counted: " + str(bad), case, out, None)
 
@@ -453,6 +527,7 @@ class Worker:
         self.size, self.off = size, off
         self.events = []
         self.gates = {}
+        self.cancels, self.planned = {}, set()
         self.credit = False      # the step just granted has not yet performed its operation
         self.granted = False
         self.quitting = False
@@ -557,38 +632,65 @@ class Worker:
         return self.fs.pwrite(self, fd, data, off)
 
     # -- the process ---------------------------------------------------------------------------------------
+    async def block(self, t, spec, pl, st):
+        """one `async with pl:` (a task of its own, so that it can be cancelled like a timed-out transfer)"""
+        p = self.p
+        n, cut, mode = sec(spec)
+        me = asyncio.current_task()
+        try:
+            st["phase"] = "enter"
+            await self.gate(t)
+            async with pl:
+                st["phase"] = "body"
+                self.ev(f">{p}.{t}")
+                for i in range(n + (1 if cut else 0)):
+                    await self.gate(t)
+                    self.credit = False
+                    try:
+                        c = pl.next_counter()
+                    except TypeError:
+                        self.ev(f"S{p}.{t}!")
+                        st["phase"] = "dead"
+                        raise
+                    self.ev(f"S{p}.{t}={c}")
+                    if i == n:          # the request that stays unanswered: the block is left by an exception
+                        if mode == 0:
+                            await self.gate(t)
+                            self.ev(f"X{p}.{t}")
+                            st["phase"] = "exit"
+                            raise Boom()
+                        self.cancels[t] = me
+                        try:
+                            await self.gate(t)
+                        except asyncio.CancelledError:
+                            if me in self.planned:
+                                self.ev(f"X{p}.{t}")
+                                st["phase"] = "exit"
+                            raise
+                    await self.gate(t)
+                    self.credit = False
+                    self.ev(f"V{p}.{t}")
+                await self.gate(t)
+                st["phase"] = "exit"
+        except Boom:
+            pass
+        except asyncio.CancelledError:
+            if me not in self.planned:
+                raise
+        st["phase"] = "out"
+        self.ev(f"<{p}.{t}")
+
     async def user(self, t, sections, pl):
         p = self.p
-        phase = "out"
+        st = {"phase": "out"}
         try:
-            for n in sections:
-                phase = "enter"
-                await self.gate(t)
-                async with pl:
-                    phase = "body"
-                    self.ev(f">{p}.{t}")
-                    for _ in range(n):
-                        await self.gate(t)
-                        self.credit = False
-                        try:
-                            c = pl.next_counter()
-                        except TypeError:
-                            self.ev(f"S{p}.{t}!")
-                            phase = "dead"
-                            raise
-                        self.ev(f"S{p}.{t}={c}")
-                        await self.gate(t)
-                        self.credit = False
-                        self.ev(f"V{p}.{t}")
-                    await self.gate(t)
-                    phase = "exit"
-                phase = "out"
-                self.ev(f"<{p}.{t}")
+            for spec in sections:
+                await self.loop.create_task(self.block(t, spec, pl, st), name=f"u{t}")
         except asyncio.CancelledError:
             raise
         except Exception as ex:
             name = type(ex).__name__
-            if phase == "exit" and name == "TypeError":
+            if st["phase"] == "exit" and name == "TypeError":
                 self.ev(f"W{p}.{t}!")
             self.ev(f"!{p}.{t}:{name}")
 
@@ -618,7 +720,12 @@ class Worker:
                     self.comm.send(["noop", []])
                     continue
                 self.granted = self.credit = True
-                f.set_result(None)
+                c = self.cancels.pop(cmd[1], None)
+                if c is not None:               # Task.cancel() on the block that waits for its response
+                    self.planned.add(c)
+                    c.cancel()
+                else:
+                    f.set_result(None)
         finally:
             for t in ts:
                 t.cancel()
@@ -830,7 +937,7 @@ def oracle_cross(ctx, case, out):
         k = tok[0]
         if k == "!":
             fails.append(("failed:" + tok.split(":")[1], f"participant {tok[1:]}"))
-        elif k == "X":
+        elif k == "X" and ":" in tok:
             fails.append(("harness", tok))
         elif k == ">":
             if inside is not None:
@@ -857,6 +964,17 @@ def oracle_cross(ctx, case, out):
             if pend != tok[1:]:
                 fails.append(("overlap", f"{tok[1:]} read a response while request of {pend} is out"))
             pend = None
+        elif k == "X":      # the block is left by an exception: its request stays unanswered, the exchange is over
+            if pend != tok[1:]:
+                fails.append(("overlap", f"{tok[1:]} abandons a request while request of {pend} is out"))
+            pend = None
+    # the lock file once nobody is inside: the terminal's byte continues the count of the bus
+    m = re.search(r"f=([01]):([\d,]*) own=(\S+)", out.split(" | ")[1])
+    if m and m.group(3) == "-" and inside is None and last is not None:
+        data = [int(x) for x in m.group(2).split(",") if x]
+        byte = data[case["off"]] if case["off"] < len(data) else 0
+        if byte != succ(last):
+            fails.append(("counter", f"the lock file keeps {byte} for the next user after counter {last} on the bus"))
     for kind, text in fails:
         ctx.require(False, f"cross-process exchanges not serialised/counted ({kind}): {text}", case, out, None)
     return fails
@@ -1144,10 +1262,406 @@ def gen_mbxbus(rng):
     return {"op": "mbxbus", "terms": terms, "tasks": tasks, "lock": rng.choice(["mailbox", "mailbox", "parallel"])}
 
 # ----------------------------------------------------------------------------------------------------------
+# hist: histories of transfers through the real Terminal.sdo_read / sdo_write / coe_request over the real EtherCat
+# (connect, roundtrip, sendloop, process_packet) with either lock class; transfers END IN ALL WAYS: normally, by an
+# abort answer of the terminal at any of their exchanges (EtherCatError raised inside the block), by a datagram
+# that is not processed (working counter 0) at any bus access, by Task.cancel() while suspended in any bus access
+# (a timeout), with a terminal that answers late or never.  The next user is the same task, another task of the
+# phase, or (lock file) another process = another LockFile + ParallelMailboxLock object in a later phase.
+# Judged is what passed on the bus: every mailbox header (FPWR on the out mailbox) and who put it there.
+# ----------------------------------------------------------------------------------------------------------
+def hist_exchanges(op):
+    return 1 + op.get("seg", 0) if op["k"] in "RW" else 1
+
+
+def hist_per(op):
+    """bus accesses of one complete exchange: status, header, last byte, d + 1 polls, mail"""
+    return 5 + op.get("delay", 0)
+
+
+def hist_total(op):
+    if op["k"] == "c":
+        return 3 + op.get("frag", 1) * (op.get("delay", 0) + 2)
+    return hist_exchanges(op) * hist_per(op)
+
+
+def hist_block(op):
+    """the block a transfer amounts to, from its declaration alone: [complete exchanges, request left unanswered]"""
+    end = op["end"]
+    if end[0] == "ok":
+        return [hist_exchanges(op), 0]
+    if end[0] == "abort":               # the answer is read, then the transfer raises
+        return [end[1] + 1, 0]
+    if end[0] == "silent":              # the terminal never answers exchange e; cancelled while polling
+        return [end[1], 1]
+    j = end[1]                          # lost / cancel at the j-th bus access of the transfer
+    assert j < hist_total(op)
+    if op["k"] == "c":
+        return [0, 1 if j >= 1 else 0]
+    e, pos = divmod(j, hist_per(op))
+    return [e, 1 if pos >= 1 else 0]
+
+
+def hist_data(op, idx):
+    if op["k"] == "r":
+        return struct.pack("<HH", idx, 0xabcd)
+    if op["k"] == "R":
+        return b"".join(bytes([idx & 0xff, k, 1, 2, 3, 4, 5]) for k in range(op["seg"]))
+    if op["k"] == "c":
+        return b"".join(bytes([idx & 0xff, k]) * (1 if k == 0 else 3) for k in range(op.get("frag", 1)))
+    return None
+
+
+class HTerm:
+    """the mailbox of one simulated terminal with a CoE server: expedited and segmented SDO upload/download, SDO
+    information; per object index it is told where to answer with an abort, where not to answer at all, and how
+    many polls late.  A new request supersedes the unread answer to an abandoned one."""
+    def __init__(self, spec, plans):
+        self.station = spec["addr"]
+        (self.out_off, self.out_sz), (self.in_off, self.in_sz) = spec["out"], spec["in"]
+        self.outbox, self.inbox, self.plans = bytearray(self.out_sz), [], plans
+        self.cur, self.exch, self.toggle, self.armed = None, 0, 0, False
+
+    def kind(self, cmd, off, n):
+        if cmd == 4 and off == 0x805:
+            return "s"
+        if cmd == 4 and off == 0x80D:
+            return "p"
+        if cmd == 5 and off == self.out_off and n >= 6:
+            return "h"
+        if cmd == 5 and self.out_off <= off < self.out_off + self.out_sz:
+            return "b"
+        if cmd == 4 and self.in_off <= off < self.in_off + self.in_sz:
+            return "i"
+        return None
+
+    def access(self, cmd, off, data):
+        n = len(data)
+        if cmd == 4 and off == 0x805 and n == 1:
+            return b"\x00"
+        if cmd == 4 and off == 0x80D and n == 1:
+            if self.inbox and self.inbox[0][0] > 0:
+                self.inbox[0][0] -= 1
+                return b"\x00"
+            return b"\x08" if self.inbox else b"\x00"
+        if cmd == 5 and self.out_off <= off and off + n <= self.out_off + self.out_sz:
+            self.outbox[off - self.out_off:off - self.out_off + n] = data
+            if off == self.out_off:
+                self.armed = True
+            if off + n == self.out_off + self.out_sz and self.armed:      # the last byte completes the message once
+                self.armed = False
+                self.mail()
+            return bytes(data)
+        if cmd == 4 and self.in_off <= off and off + n <= self.in_off + self.in_sz and self.inbox \
+                and self.inbox[0][0] == 0:
+            ret = (self.inbox[0][1] + bytes(self.in_sz))[off - self.in_off:off - self.in_off + n]
+            if off + n == self.in_off + self.in_sz:
+                self.inbox.pop(0)
+            return ret
+        return bytes(n) if cmd == 4 else bytes(data)
+
+    def answer(self, tc, body, delay):
+        self.inbox.append([delay, struct.pack("<HHBB", len(body), 0, 0, 3 | (tc & 0x70)) + body])
+
+    def mail(self):
+        ln, _addr, _cp, tc = struct.unpack_from("<HHBB", self.outbox, 0)
+        body = bytes(self.outbox[6:6 + ln])
+        self.inbox.clear()
+        coe, cmd = struct.unpack_from("<HB", body, 0)
+        service = coe >> 12
+        if service == 8:                                    # SDO information
+            index, sub = struct.unpack_from("<HB", body, 6)
+            plan = self.plans.get(index, {})
+            if plan.get("silent") == 0:
+                return
+            if plan.get("abort") == 0:
+                return self.answer(tc, struct.pack("<HBxH", 8 << 12, 7, 0) + bytes(4), plan.get("delay", 0))
+            f = plan.get("frag", 1)
+            for k in range(f):
+                self.answer(tc, struct.pack("<HBxH", 8 << 12, (cmd & 0x7f) + 1, f - 1 - k)
+                            + bytes([index & 0xff, k]) * (2 if k == 0 else 3), plan.get("delay", 0))
+            return
+        ccs = cmd & 0xe0
+        if ccs in (0x40, 0x20):                             # a new transfer: upload / download initiate
+            index, sub = struct.unpack_from("<HB", body, 3)
+            self.cur, self.exch, self.toggle, self.sub = index, 0, 0, sub
+        else:
+            self.exch += 1
+        index, sub = self.cur, self.sub
+        plan = self.plans.get(index, {})
+        d = plan.get("delay", 0)
+        if plan.get("silent") == self.exch:
+            return
+        if plan.get("abort") == self.exch:
+            return self.answer(tc, struct.pack("<HBHBI", 2 << 12, 0x80, index, sub, 0x06020000), d)
+        if ccs == 0x40:
+            seg = plan.get("seg", 0)
+            if seg == 0:
+                self.answer(tc, struct.pack("<HBHB4s", 3 << 12, 0x43, index, sub, struct.pack("<HH", index, 0xabcd)), d)
+            else:
+                self.answer(tc, struct.pack("<HBHBI", 3 << 12, 0x41, index, sub, 7 * seg), d)
+        elif ccs == 0x60:                                   # upload segment
+            k = self.exch - 1
+            last = 1 if self.exch == plan.get("seg", 0) else 0
+            self.answer(tc, struct.pack("<HB", 3 << 12, (cmd & 0x10) | last) + bytes([index & 0xff, k, 1, 2, 3, 4, 5]), d)
+        elif ccs == 0x20:
+            self.answer(tc, struct.pack("<HBHB4x", 3 << 12, 0x60, index, sub), d)
+        else:                                               # download segment
+            self.answer(tc, struct.pack("<HB", 3 << 12, 0x20 | (cmd & 0x10)), d)
+
+
+class HBus:
+    """the wire: every datagram is attributed to the transfer that queued it (same order), logged, and executed by
+    the terminal unless the transfer's plan loses it"""
+    def __init__(self, loop, term, log, fifo, lost):
+        self._sock, self.loop, self.proto = _Sock(), loop, None
+        self.term, self.log, self.fifo, self.lost = term, log, fifo, lost
+
+    def sendto(self, data, addr):
+        ans = bytearray(data)
+        for cmd, station, off, start, stop in _walk_frame(bytes(data)):
+            opid, acc = self.fifo.pop(0)
+            kind = self.term.kind(cmd, off, stop - start) if station == self.term.station else None
+            if kind is None:
+                self.log.append(f"?{opid}")
+                continue
+            self.log.append(f"h{opid}={data[start + 5] >> 4}" if kind == "h" else f"{kind}{opid}")
+            if self.lost.get(opid) == acc:
+                continue
+            ans[start:stop] = self.term.access(cmd, off, bytes(data[start:stop]))
+            ans[stop:stop + 2] = b"\x01\x00"
+        self.loop.call_soon(self.proto.datagram_received, bytes(ans), addr)
+
+
+def run_hist(case):
+    import ebpfcat.lock as lk
+    from ebpfcat.ebpfcat import ParallelEtherCat
+    from ebpfcat.ethercat import Terminal, EtherCat, EtherCatError, CoECmd, ODCmd
+    log, fifo, lost, plans = [], [], {}, {}
+    loop = asyncio.new_event_loop()
+    spec = case["term"]
+    hterm = HTerm(spec, plans)
+    ops = {}            # task -> [opid, accesses so far, access to be cancelled in]
+
+    class EC(EtherCat):
+        async def roundtrip(self, *a, **k):
+            me = asyncio.current_task()
+            rec = ops.get(me)
+            if rec is None:
+                fifo.append((-1, 0))
+            else:
+                fifo.append((rec[0], rec[1]))
+                if rec[2] == rec[1]:
+                    loop.call_soon(me.cancel)           # lands while the task is suspended in this access
+                rec[1] += 1
+            return await super().roundtrip(*a, **k)
+
+    nown = 1 + max(ph["owner"] for ph in case["phases"])
+    lockdir = tempfile.mkdtemp(prefix="c15_hist_") if case["lock"] == "parallel" else None
+    files, terms, locks = [], [], []
+
+    async def transfer(term, op, idx):
+        if op["k"] in "rR":
+            got = await term.sdo_read(idx, 1)
+        elif op["k"] == "w":
+            got = await term.sdo_write(bytes(range(1, 1 + op.get("len", 2))), idx, 2)
+        elif op["k"] == "W":
+            chunk0, segsz = term.mbx_out_sz - 16, term.mbx_out_sz - 9
+            got = await term.sdo_write(bytes(chunk0 + segsz * op["seg"] - op.get("short", 0)), idx, 2)
+        else:
+            got = await term.coe_request(CoECmd.SDOINFO, ODCmd.OE_REQ, "HBB", idx, 1, 7)
+        want = hist_data(op, idx)
+        return "ok" if want is None or bytes(got) == want else f"wrong-data:{bytes(got).hex()}"
+
+    async def user(term, oplist):
+        for opid, op in oplist:
+            idx = 0x2000 + opid
+            end = op["end"]
+            plans[idx] = {"seg": op.get("seg", 0), "frag": op.get("frag", 1), "delay": op.get("delay", 0)}
+            cancel_at = None
+            if end[0] == "abort":
+                plans[idx]["abort"] = end[1]
+            elif end[0] == "silent":
+                plans[idx]["silent"] = end[1]
+                cancel_at = end[1] * hist_per(op) + 3 + end[2]
+            elif end[0] == "lost":
+                lost[opid] = end[1]
+            elif end[0] == "cancel":
+                cancel_at = end[1]
+            inner = loop.create_task(transfer(term, op, idx))
+            ops[inner] = [opid, 0, cancel_at]
+            try:
+                res = await inner
+            except EtherCatError:
+                res = "EtherCatError"
+            except asyncio.CancelledError:
+                if not inner.cancelled():
+                    raise
+                res = "cancelled"
+            except Exception as ex:     # noqa: BLE001 - canonicalised
+                res = type(ex).__name__
+            log.append(f"E{opid}:{res}")
+            for _ in range(op.get("lag", 0)):
+                await asyncio.sleep(0)
+
+    async def go():
+        for o in range(nown):
+            ec = EC("lo")
+            bus = HBus(loop, hterm, log, fifo, lost)
+
+            async def endpoint(factory, bus=bus, **kw):
+                bus.proto = factory()
+                bus.proto.connection_made(bus)
+                return bus, bus.proto
+            loop.create_datagram_endpoint = endpoint
+            await ec.connect()
+            term = Terminal(ec)
+            term.position, term.name = spec["addr"], f"T{spec['addr']}"
+            term.parse_sync_managers(struct.pack("<HHBBBB", *spec["out"], 0x26, 0, 1, 0)
+                                     + struct.pack("<HHBBBB", *spec["in"], 0x22, 0, 1, 0))
+            if lockdir is not None:
+                lf = lk.LockFile(lockdir + "/run/mbx.lock", *ParallelEtherCat.terminal_addr_range)
+                files.append(lf)
+                term.mbx_lock = ParallelEtherCat.get_mbx_lock(types.SimpleNamespace(mbx_lock_file=lf), term.position)
+            else:
+                term.mbx_lock = ec.get_mbx_lock(term.position)
+            terms.append(term)
+            locks.append(term.mbx_lock)
+        opid = 0
+        try:
+            for ph in case["phases"]:
+                jobs = []
+                for oplist in ph["tasks"]:
+                    jobs.append(user(terms[ph["owner"]], [(opid + i, op) for i, op in enumerate(oplist)]))
+                    opid += len(oplist)
+                await asyncio.wait_for(asyncio.gather(*jobs), 20)
+        except asyncio.TimeoutError:
+            log.append("E-:stalled")
+        finally:
+            for t in asyncio.all_tasks():
+                if t is not asyncio.current_task():
+                    t.cancel()
+
+    logging.disable(logging.CRITICAL)
+    try:
+        loop.run_until_complete(go())
+        loop.run_until_complete(asyncio.sleep(0))
+        if lockdir is not None:
+            lo = ParallelEtherCat.terminal_addr_range[0]
+            fd = os.open(lockdir + "/run/mbx.lock", os.O_RDONLY)
+            try:
+                b = os.pread(fd, 1, spec["addr"] - lo)
+            finally:
+                pass        # closing any descriptor of the file would drop the process's record locks: at the very end
+            keeps = b[0] if b else 0
+            os.close(fd)
+        else:
+            keeps = locks[0].counter
+    finally:
+        logging.disable(logging.NOTSET)
+        loop.close()
+        for lf in files:
+            lf.close()
+        if lockdir is not None:
+            shutil.rmtree(lockdir, ignore_errors=True)
+    return " ".join(log) + f" | keeps={keeps}"
+
+
+def hist_ops(case):
+    return [op for ph in case["phases"] for oplist in ph["tasks"] for op in oplist]
+
+
+def oracle_hist(ctx, case, out):
+    """on what passed on the bus: mailbox headers carry successive counters of the cycle across all users and all
+    endings of earlier transfers; the bus accesses of two transfers never interleave; every transfer ends the way
+    its declaration says (nobody gets a foreign answer, nobody fails because of somebody else); what the lock keeps
+    afterwards is the successor of the last counter on the bus"""
+    toks, keeps = out.split(" | keeps=")
+    bad = None
+    last = None
+    seen, cur = set(), None
+    ops = hist_ops(case)
+    ended = {}
+    for tok in toks.split():
+        k = tok[0]
+        if k == "E":
+            opid, res = tok[1:].split(":", 1)
+            ended[opid] = res
+            continue
+        if k == "?":
+            bad = bad or f"unexpected bus access {tok}"
+            continue
+        opid = tok[1:].split("=")[0]
+        if opid != cur:
+            if opid in seen:
+                bad = bad or f"transfer {opid} accesses the mailbox inside the exchange of transfer {cur}"
+            seen.add(opid)
+            cur = opid
+        if k == "h":
+            c = int(tok.split("=")[1])
+            if not ((last is None and 0 <= c <= 7) or (last is not None and c == succ(last))):
+                bad = bad or f"counter {c} after {last} (header of transfer {opid})"
+            last = c
+    for i, op in enumerate(ops):
+        want = {"ok": "ok", "abort": "EtherCatError", "lost": "EtherCatError", "cancel": "cancelled",
+                "silent": "cancelled"}[op["end"][0]]
+        if ended.get(str(i)) != want:
+            bad = bad or f"transfer {i} declared {op['end']} ended as {ended.get(str(i))}"
+    if last is not None and keeps != str(succ(last)):
+        bad = bad or f"the lock keeps {keeps} for the next user after counter {last} on the bus"
+    ctx.require(bad is None, "transfer histories on the bus not serialised/counted: " + str(bad), case, out, None)
+
+
+def gen_hist_op(rng, failing):
+    k = rng.choice("rrRwWc")
+    op = {"k": k, "delay": rng.choice([0, 0, 1, 2])}
+    if k in "RW":
+        op["seg"] = rng.choice([1, 1, 2, 3])
+    if k == "W":
+        op["short"] = rng.randrange(0, 6)
+    if k == "w":
+        op["len"] = rng.randrange(1, 5)
+    if k == "c":
+        op["frag"] = rng.choice([1, 1, 2])
+    if rng.random() < 0.3:
+        op["lag"] = rng.randrange(1, 4)
+    r = rng.random()
+    nex = hist_exchanges(op)
+    if not failing or r < 0.4:
+        op["end"] = ["ok"]
+    elif r < 0.55:
+        op["end"] = ["abort", rng.randrange(nex)]
+    elif r < 0.7:
+        op["end"] = ["lost", rng.randrange(hist_total(op))]
+    elif r < 0.9:
+        op["end"] = ["cancel", rng.randrange(hist_total(op))]
+    else:
+        op["end"] = ["silent", rng.randrange(nex), rng.randrange(0, 4)]
+    return op
+
+
+def gen_hist(rng):
+    from ebpfcat.ebpfcat import ParallelEtherCat
+    lo, hi = ParallelEtherCat.terminal_addr_range
+    lock = rng.choice(["mailbox", "parallel", "parallel"])
+    nown = 1 if lock == "mailbox" else rng.choice([1, 2, 2, 3])
+    osz, isz = rng.choice([(32, 32), (48, 64), (64, 48), (128, 128)])
+    term = {"addr": rng.choice([lo, hi, rng.randrange(lo, hi + 1)]), "out": [0x1000, osz],
+            "in": [0x1000 + osz + rng.choice([0, 16]), isz]}
+    failing = rng.random() < 0.85
+    phases = []
+    for i in range(rng.choice([1, 2, 2, 3, 4]) if nown == 1 else rng.randrange(nown, nown + 3)):
+        owner = i % nown if i < nown else rng.randrange(nown)
+        phases.append({"owner": owner, "tasks": [[gen_hist_op(rng, failing) for _ in range(rng.randrange(1, 4))]
+                                                  for _ in range(rng.choice([1, 1, 2, 3]))]})
+    return {"op": "hist", "lock": lock, "term": term, "phases": phases}
+
+
+# ----------------------------------------------------------------------------------------------------------
 RUN = {"cycle": run_cycle, "inproc": run_inproc, "terminal": run_terminal, "cross": run_cross, "addr": run_addr,
-       "mbxbus": run_mbxbus}
+       "mbxbus": run_mbxbus, "hist": run_hist}
 ORACLE = {"cycle": oracle_cycle, "inproc": oracle_inproc, "terminal": oracle_terminal, "cross": oracle_cross,
-          "addr": oracle_addr, "mbxbus": oracle_mbxbus}
+          "addr": oracle_addr, "mbxbus": oracle_mbxbus, "hist": oracle_hist}
 
 
 def to_model(case):
@@ -1160,6 +1674,10 @@ def to_model(case):
         return {"op": "retry", "terms": [
             {"tasks": [[1] * len(t["ops"]) for t in case["tasks"] if t["term"] == k],
              "fails": len(spec.get("lost", [])) + len(spec.get("stale_lost", []))} for k, spec in enumerate(case["terms"])]}
+    if case["op"] == "hist":        # every transfer is one block, computed from its declaration
+        return {"op": "hist", "lock": case["lock"], "phases": [
+            {"owner": ph["owner"], "tasks": [[hist_block(op) for op in oplist] for oplist in ph["tasks"]]}
+            for ph in case["phases"]]}
     return {k: v for k, v in case.items() if k != "backend"}
 
 
@@ -1169,6 +1687,9 @@ def impl_view(case, out):
         return model_view(out)
     if case["op"] == "terminal":
         return " ".join(t.split("=")[1] for t in out.split() if t[0] == "q")
+    if case["op"] == "hist":
+        toks, keeps = out.split(" | keeps=")
+        return " ".join(t.split("=")[1] for t in toks.split() if t[0] == "h") + " | keeps=" + keeps
     if case["op"] == "mbxbus":
         return " || ".join(" ".join(t.split("=")[1].split(":")[0] for t in out.split()
                                     if t[0] == "q" and t[1:].split("=")[0] == str(spec["addr"])) for spec in case["terms"])
@@ -1181,10 +1702,25 @@ def model_split(line):
 
 
 # ---- generators ----------------------------------------------------------------------------------------------
+def gen_block(rng, top, failing):
+    """a block that ends normally, or (in histories with failures) one that is left by an error / a cancellation
+    while its last request is out"""
+    if failing and rng.random() < 0.4:
+        return [rng.randrange(0, top - 1), 1, rng.randrange(2)]
+    return rng.randrange(0, top)
+
+
+def block_steps(x):
+    n, cut, _ = sec(x)
+    return 2 * n + (2 if cut else 0)
+
+
 def gen_inproc(rng):
     nt = rng.choice([1, 2, 2, 3, 3, 4])
-    tasks = [[rng.randrange(0, 4) for _ in range(rng.choice([1, 1, 2]))] for _ in range(nt)]
-    steps = sum(2 + 2 * n for secs in tasks for n in secs)
+    failing = rng.random() < 0.6
+    tasks = [[gen_block(rng, 4, failing) for _ in range(rng.choice([1, 1, 2, 3] if failing else [1, 1, 2]))]
+             for _ in range(nt)]
+    steps = sum(2 + block_steps(x) for secs in tasks for x in secs)
     sched = []
     for _ in range(rng.randrange(steps, 2 * steps + 4)):
         if rng.random() < 0.75:
@@ -1205,17 +1741,18 @@ def gen_cross(rng):
     mode = rng.random()
     np_ = rng.choice([1, 2, 2, 2, 3, 3])
     multi = mode < 0.45                     # some process with two or three mailbox tasks
+    failing = rng.random() < 0.6            # blocks that are left by an error or a cancellation after a request
     tasks = []
     for p in range(np_):
         nt = rng.choice([2, 2, 3]) if multi and (p == 0 or rng.random() < 0.3) else 1
-        tasks.append([[rng.randrange(0, 3) for _ in range(rng.choice([1, 1, 2]))] for _ in range(nt)])
+        tasks.append([[gen_block(rng, 3, failing) for _ in range(rng.choice([1, 1, 2]))] for _ in range(nt)])
     size = rng.randrange(2, 7)
     off = rng.randrange(0, size + 1)        # both ends of the address range
     absent = rng.random() < 0.4
     file = None
     if not absent:
         file = [rng.randrange(0, 8) for _ in range(size + 1 if rng.random() < 0.85 else rng.randrange(0, size + 1))]
-    steps = sum(2 + sum(4 + 2 * n for n in secs) for ts in tasks for secs in ts)
+    steps = sum(2 + sum(4 + block_steps(x) for x in secs) for ts in tasks for secs in ts)
     sched = []
     parts = [(p, t) for p, ts in enumerate(tasks) for t in range(len(ts))]
     if absent and rng.random() < 0.3:       # the creator completes LockFile() first
@@ -1283,10 +1820,23 @@ def fork_family():
             + [[1, 0]] * 8}
     created = {"op": "cross", "backend": "fork", "size": 4, "off": 3, "file": None, "tasks": [[[1]], [[1]], [[1]]],
                "sched": [[0, 0], [0, 0]] + [[1, 0], [2, 0], [0, 0]] * 12}
-    return [dict(WITNESS_WINDOW), dict(WITNESS_SAMEPROC), dict(WITNESS_LASTADDR), good, created]
+    # blocks left by a cancellation / an error while their request is out, on real files with real lockf
+    cancelled = {"op": "cross", "backend": "fork", "size": 3, "off": 1, "file": [0, 5, 0, 0],
+                 "tasks": [[[[0, 1, 1]]], [[1]]],
+                 "sched": [[0, 0], [0, 0], [1, 0], [1, 0], [0, 0], [0, 0], [0, 0], [1, 0], [0, 0], [0, 0]] + [[1, 0]] * 8}
+    failed = {"op": "cross", "backend": "fork", "size": 3, "off": 3, "file": None,
+              "tasks": [[[[1, 1, 0]], [1]], [[[0, 1, 1], 1]]],
+              "sched": [[0, 0], [0, 0], [1, 0], [1, 0]] + [[0, 0], [0, 1], [1, 0]] * 16}
+    return [dict(WITNESS_WINDOW), dict(WITNESS_SAMEPROC), dict(WITNESS_LASTADDR), good, created, cancelled, failed]
 
 
 def nontrivial(case, out):
+    if case["op"] == "hist":        # a transfer that ended by a failure / cancellation after a request, then a further message
+        toks = out.split(" | ")[0].split()
+        ops = hist_ops(case)
+        ends = [i for i, t in enumerate(toks) if t[0] == "E" and not t.endswith(":ok")
+                and sum(hist_block(ops[int(t[1:].split(":")[0])])) > 0]
+        return bool(ends) and any(t[0] == "h" for t in toks[ends[0]:])
     if case["op"] == "mbxbus":      # a failed attempt followed by a message that really left
         toks = out.split()
         fails = [i for i, t in enumerate(toks) if t[0] == "x"]
@@ -1313,6 +1863,7 @@ def run(ctx):
     cases += [gen_terminal(rng) for _ in range(ctx.n(150, 3000))]
     cases += [gen_cross(rng) for _ in range(ctx.n(700, 20000))]
     cases += [gen_mbxbus(rng) for _ in range(ctx.n(300, 6000))]
+    cases += [gen_hist(rng) for _ in range(ctx.n(400, 8000))]
 
     outs = []
     known_fail = {}
@@ -1326,6 +1877,9 @@ def run(ctx):
             known_fail[i] = True
         ctx.case(c, nontrivial=nontrivial(c, out),
                  kind=c["op"] + (":" + c["backend"] if c.get("backend") else "") + (":oracle-fail" if failed else "") +
+                 (":abandoned-request" if c["op"] in ("inproc", "cross") and re.search(r"(^| )[xX]\d", out) else "") +
+                 ((":" + c["lock"] + (":failing" if any(op["end"][0] != "ok" for op in hist_ops(c)) else ":clean"))
+                  if c["op"] == "hist" else "") +
                  ((":" + c.get("lock", "mailbox")) + (":retried" if " x" in " " + out else ":clean") + (":stale-mail" if " u" in " " + out else "")
                   if c["op"] == "mbxbus" else ""))
     model = ctx.drive(DRIVER, [to_model(c) for c in cases], "mailbox locks")
@@ -1350,7 +1904,12 @@ LEVEL_TEXT = ("Lean 4 proofs over a hand-written model of lock.py: the counter s
               "for any number of tasks sharing a MailboxLock and every schedule (asyncio.Lock FIFO semantics) critical sections "
               "never overlap, each request is answered before the next and counters are consecutive across all tasks - also when sections "
               "are attempts that failed before their next message was written: once all are done there is exactly one counter per message "
-              "that left (retries_total). For the lock "
+              "that left (retries_total). Blocks may be left by an exception while their request is out (abort answer, error, "
+              "timeout, cancellation - Sec.cut; an error between two exchanges is a shorter block): all statements quantify over such "
+              "blocks, failed_total counts exactly one counter per message that left (abandoned requests included), and "
+              "counter_tracks_bus / file_tracks_bus state that what the lock keeps for the next user (MailboxLock.counter; the "
+              "terminal's byte in the lock file whenever the record lock is free) is the successor of the latest counter on the bus "
+              "after every schedule, whatever the outcomes of earlier exchanges. For the lock "
               "file (after the three fix: commits): for any number of processes AND tasks per process, file present or absent, and "
               "every schedule of file operations and tasks - including any activity between the creator's O_EXCL open and its "
               "ftruncate - users are serialised, counted consecutively, read only valid counters and never fail; the holder of the "
@@ -1358,7 +1917,7 @@ LEVEL_TEXT = ("Lean 4 proofs over a hand-written model of lock.py: the counter s
               "/repo by exact trace correspondence of the real classes (emulated file operations with per-process locks, plus "
               "forked processes on real files for the former counterexample schedules).")
 LEVEL_NOTE = ("trusted: Lean kernel; hand transcription Ebv.Mbx validated (not verified) by differential traces; asyncio.Lock and POSIX "
-              "open/ftruncate/lockf/pread/pwrite semantics as modelled; no cancellation, no removal of the lock file (C23), one lock "
+              "open/ftruncate/lockf/pread/pwrite semantics as modelled; no cancellation while waiting for a lock, no removal of the lock file (C23), one lock "
               "object per process and terminal; liveness only as non-blocking of the lock holder")
 TECHNIQUE = "Lean 4 invariants over schedules (induction) + refutation by evaluation on witness schedules + differential traces"
 DESIGN_REF = "§4 C15"
